@@ -1,0 +1,6 @@
+//go:build !verif
+
+package functions
+
+// verifLikeRegexp is a verification hook (see verif_on.go); without the `verif` build tag it does nothing.
+func verifLikeRegexp(pattern, regexpText string) {}
